@@ -208,4 +208,244 @@ theorem edges_spec {c : Ctx} (r : Routine) {o : Out} (hs : o.seqlen = seqlenOf c
     intro mr' _
     exact edges_spec r hs hb is ml' mr' (fun j hj => h j (List.mem_cons_of_mem _ hj))
 
+/-! ### from the invariant at stride 1 to the partition specification -/
+
+/-- the sequences as lists -/
+def runsL (c : Ctx) : List (List Int) := c.runs.toList.map Array.toList
+
+/-- the offsets as natural numbers -/
+def offsOf (c : Ctx) (ab : AB) : List Nat := (List.range c.runs.size).map (fun i => (A ab i).toNat)
+
+theorem runsL_get (c : Ctx) {i : Nat} (hi : i < c.runs.size) : (runsL c)[i]? = some c.runs[i].toList := by
+  simp [runsL, hi]
+
+theorem runsL_get_inv (c : Ctx) {i : Nat} {r : List Int} (h : (runsL c)[i]? = some r) :
+    i < c.runs.size ∧ r = c.runs[i]!.toList := by
+  have hi : i < c.runs.size := by
+    have := (List.getElem?_eq_some_iff.mp h).1
+    simpa [runsL] using this
+  rw [runsL_get c hi] at h
+  cases h
+  exact ⟨hi, by simp [hi]⟩
+
+theorem lenAt_eq (c : Ctx) {i : Nat} (hi : i < c.runs.size) : lenAt c i = (c.runs[i].toList.length : Int) := by
+  simp [lenAt, Array.getD_eq_getD_getElem?, Array.getElem?_eq_getElem hi]
+
+theorem valAt_eq (c : Ctx) {i : Nat} (hi : i < c.runs.size) {p : Nat} (hp : p < c.runs[i].toList.length) :
+    valAt c i (p : Int) = c.runs[i].toList[p] := by
+  have hp' : p < c.runs[i].size := by simpa using hp
+  simp [valAt, Array.getD_eq_getD_getElem?, Array.getElem?_eq_getElem hi, Array.getElem?_eq_getElem hp']
+
+theorem offsOf_get (c : Ctx) (ab : AB) {i : Nat} (hi : i < c.runs.size) : (offsOf c ab)[i]? = some (A ab i).toNat := by
+  simp [offsOf, hi]
+
+theorem sum_offs_cast (ab : AB) : ∀ (is : List Nat), (∀ i ∈ is, 0 ≤ A ab i) →
+    (((is.map (fun i => (A ab i).toNat)).sum : Nat) : Int) = sumA ab is
+  | [], _ => rfl
+  | i :: is, h => by
+    have := h i List.mem_cons_self
+    have ih := sum_offs_cast ab is (fun j hj => h j (List.mem_cons_of_mem _ hj))
+    simp only [List.map_cons, List.sum_cons, sumA]
+    push_cast
+    rw [ih]; omega
+
+/-- **The invariant at stride 1 with the exact rank is the partition specification.** -/
+theorem isPartition_of_inv {c : Ctx} (hg : Good c) {ab : AB} (hinv : Inv c 0 ab) {rank : Nat}
+    (hsum : sumA ab (List.range c.runs.size) = rank) : IsPartition c.lt (runsL c) rank (offsOf c ab) := by
+  have hrl : (runsL c).length = c.runs.size := by simp [runsL]
+  refine ⟨by simp [offsOf, runsL], ?_, ?_, ?_⟩
+  · intro i r o hr ho
+    obtain ⟨hi, _⟩ := runsL_get_inv c hr
+    rw [runsL_get c hi] at hr; cases hr
+    rw [offsOf_get c ab hi] at ho; cases ho
+    have := (hinv.str i hi).2.1
+    rw [lenAt_eq c hi] at this
+    omega
+  · have := sum_offs_cast ab (List.range c.runs.size) (fun i hi => (hinv.str i (List.mem_range.mp hi)).1)
+    rw [hsum] at this
+    unfold offsOf
+    omega
+  · intro i j ri rj oi oj hij hri hrj hoi hoj x hx y hy
+    obtain ⟨hi, _⟩ := runsL_get_inv c hri
+    obtain ⟨hj, _⟩ := runsL_get_inv c hrj
+    rw [runsL_get c hi] at hri; cases hri
+    rw [runsL_get c hj] at hrj; cases hrj
+    rw [offsOf_get c ab hi] at hoi; cases hoi
+    rw [offsOf_get c ab hj] at hoj; cases hoj
+    obtain ⟨hi0, hi1, _, _⟩ := hinv.str i hi
+    obtain ⟨hj0, hj1, _, hj3⟩ := hinv.str j hj
+    rw [lenAt_eq c hi] at hi1
+    rw [lenAt_eq c hj] at hj1
+    rw [List.mem_take_iff_getElem] at hx
+    obtain ⟨p, hp, rfl⟩ := hx
+    rw [List.mem_drop_iff_getElem] at hy
+    obtain ⟨q, hq, rfl⟩ := hy
+    have hp1 : p < (A ab i).toNat := by omega
+    have hp2 : p < c.runs[i].toList.length := by omega
+    have hai : 0 < A ab i := by omega
+    have hbj : B ab j < lenAt c j := by rw [hj3, lenAt_eq c hj]; omega
+    have hv := hinv.valid i j hi hj hij hai hbj
+    -- the edge samples as list elements
+    have e1 : valAt c i (A ab i - 1) = c.runs[i].toList[(A ab i).toNat - 1]'(by omega) := by
+      have : A ab i - 1 = (((A ab i).toNat - 1 : Nat) : Int) := by omega
+      rw [this]; exact valAt_eq c hi (by omega)
+    have e2 : valAt c j (B ab j) = c.runs[j].toList[(A ab j).toNat]'(by omega) := by
+      have : B ab j = (((A ab j).toNat : Nat) : Int) := by rw [hj3]; omega
+      rw [this]; exact valAt_eq c hj (by omega)
+    have e3 : c.runs[i].toList[p] = valAt c i (p : Int) := (valAt_eq c hi hp2).symm
+    have e4 : c.runs[j].toList[(A ab j).toNat + q] = valAt c j (((A ab j).toNat + q : Nat) : Int) :=
+      (valAt_eq c hj (by omega)).symm
+    rw [e3, e4]
+    refine before_of_edges hg.hlt ?_ ?_ hv
+    · exact hg.sorted i hi p (A ab i - 1) (by omega) (by omega) (by rw [lenAt_eq c hi]; omega)
+    · rw [hj3]
+      exact hg.sorted j hj (A ab j + (0 : Nat)) _ (by omega) (by omega) (by rw [lenAt_eq c hj]; omega)
+
+/-! ### the theorem -/
+
+theorem ends_partition (lt : Int → Int → Bool) (runs : List (List Int)) :
+    IsPartition lt runs (runs.map List.length).sum (runs.map List.length) := by
+  refine ⟨by simp, ?_, rfl, ?_⟩
+  · intro i r o hr ho
+    simp only [List.getElem?_map, hr, Option.map_some, Option.some.injEq] at ho
+    omega
+  · intro i j ri rj oi oj _ _ hrj _ hoj x _ y hy
+    simp only [List.getElem?_map, hrj, Option.map_some, Option.some.injEq] at hoj
+    subst hoj; simp at hy
+
+/-- the result of the model, read as natural offsets -/
+def natOffs (c : Ctx) (offs : Array Int) : List Nat := (List.range c.runs.size).map (fun i => (aget offs i).toNat)
+
+theorem totalLen_runsL (c : Ctx) : ((runsL c).map List.length).sum = totalLen c := by
+  unfold totalLen runsL
+  rw [foldl_size_eq]
+  simp [Function.comp_def]
+
+theorem natOffs_seqlen (c : Ctx) : natOffs c (seqlenOf c) = (runsL c).map List.length := by
+  apply List.ext_getElem?
+  intro i
+  by_cases hi : i < c.runs.size
+  · simp only [natOffs, runsL, List.getElem?_map, List.getElem?_range hi, Option.map_some, aget_seqlenOf c hi,
+      lenAt_eq c hi]
+    simp [hi]
+  · have h1 : (natOffs c (seqlenOf c)).length ≤ i := by simp [natOffs]; omega
+    have h2 : ((runsL c).map List.length).length ≤ i := by simp [runsL]; omega
+    rw [List.getElem?_eq_none_iff.mpr h1, List.getElem?_eq_none_iff.mpr h2]
+
+/-- **Correctness of the refinement for all inputs** (the former OPEN items `msp_correct` and `msp_bounds`):
+for non-empty sequences sorted w.r.t. a strict weak order and every rank `0 ≤ rank ≤ N`, the executable model of
+`multisequence_partition` succeeds — every read stays inside its sequence, no `top()` of an empty priority
+queue — and returns non-negative offsets that satisfy the partition specification. -/
+theorem msp_correct {c : Ctx} (hg : Good c) {rank : Nat} (hr : rank ≤ totalLen c) :
+    ∃ offs tr, runM (partitionM c rank) = .ok (offs, tr) ∧ offs.size = c.runs.size ∧
+      (∀ i, i < c.runs.size → 0 ≤ aget offs i) ∧ IsPartition c.lt (runsL c) rank (natOffs c offs) := by
+  by_cases heq : rank = totalLen c
+  · subst heq
+    refine ⟨seqlenOf c, #[], ?_, size_seqlenOf c, ?_, ?_⟩
+    · simp [runM, partitionM, StateT.run, pure, StateT.pure, Except.pure]
+    · intro i hi; rw [aget_seqlenOf c hi, lenAt_eq c hi]; omega
+    · rw [natOffs_seqlen, ← totalLen_runsL]
+      exact ends_partition c.lt (runsL c)
+  · have hlt : rank < totalLen c := by omega
+    have hm : 0 < c.runs.size := by
+      refine Nat.pos_of_ne_zero fun h0 => ?_
+      have := totalLen_eq c
+      rw [h0] at this
+      simp [sumLen] at this
+      omega
+    have hspec : Spec (partitionM c rank) (fun offs => offs.size = c.runs.size ∧
+        (∀ i, i < c.runs.size → 0 ≤ aget offs i) ∧ IsPartition c.lt (runsL c) rank (natOffs c offs)) := by
+      unfold partitionM
+      have h1 : ¬ (rank == totalLen c) = true := by simpa using heq
+      have h2 : ¬ (c.runs.size == 0 || decide (rank > totalLen c)) = true := by
+        simp only [Bool.or_eq_true, beq_iff_eq, decide_eq_true_eq, not_or]; omega
+      rw [if_neg h1, if_neg h2]
+      refine Spec.bind (refine_spec hg hm hlt) ?_
+      intro o ⟨hs, hinv, hsum⟩
+      refine Spec.bind (edges_spec .partition hs (fun i hi => by
+        obtain ⟨h0, h1, _, h3⟩ := hinv.str i hi
+        simp only [A, B] at h0 h1 h3
+        exact ⟨h0, h1, by omega⟩) (List.range c.runs.size) none none (fun i hi => List.mem_range.mp hi)) ?_
+      intro _ _
+      refine Spec.pure ⟨hinv.sa, fun i hi => (hinv.str i hi).1, ?_⟩
+      exact isPartition_of_inv hg hinv hsum
+    obtain ⟨offs, tr, hrun, hP⟩ := hspec #[]
+    exact ⟨offs, tr, hrun, hP⟩
+
+/-! ### list-level interface -/
+
+/-- the context of the model for sequences given as lists of keys -/
+def ctxOf (lt : Int → Int → Bool) (runs : List (List Int)) : Ctx :=
+  { lt := lt, runs := (runs.map List.toArray).toArray }
+
+theorem runsL_ctxOf (lt : Int → Int → Bool) (runs : List (List Int)) : runsL (ctxOf lt runs) = runs := by
+  simp [runsL, ctxOf, Function.comp_def]
+
+theorem good_ctxOf {lt : Int → Int → Bool} (hlt : StrictWeak lt) {runs : List (List Int)}
+    (hne : ∀ r ∈ runs, r ≠ []) (hs : ∀ r ∈ runs, SortedRun lt r) : Good (ctxOf lt runs) := by
+  have hsz : (ctxOf lt runs).runs.size = runs.length := by simp [ctxOf]
+  have hget : ∀ i (hi : i < (ctxOf lt runs).runs.size), (ctxOf lt runs).runs[i].toList = runs[i]'(by rw [← hsz]; exact hi) := by
+    intro i hi; simp [ctxOf]
+  refine ⟨hlt, ?_, ?_⟩
+  · intro i hi
+    rw [lenAt_eq _ hi, hget i hi]
+    have := hne _ (List.getElem_mem (by rw [← hsz]; exact hi))
+    have := List.length_pos_iff.mpr this
+    omega
+  · intro i hi p q h0 hpq hq
+    rw [lenAt_eq _ hi] at hq
+    have hsr := hs _ (List.getElem_mem (by rw [← hsz]; exact hi : i < runs.length))
+    rw [← hget i hi] at hsr
+    have hqn : q.toNat < (ctxOf lt runs).runs[i].toList.length := by omega
+    have hpn : p.toNat < (ctxOf lt runs).runs[i].toList.length := by omega
+    have e1 : valAt (ctxOf lt runs) i q = (ctxOf lt runs).runs[i].toList[q.toNat] := by
+      have h := valAt_eq (ctxOf lt runs) hi hqn
+      have : ((q.toNat : Nat) : Int) = q := by omega
+      rw [this] at h; exact h
+    have e2 : valAt (ctxOf lt runs) i p = (ctxOf lt runs).runs[i].toList[p.toNat] := by
+      have h := valAt_eq (ctxOf lt runs) hi hpn
+      have : ((p.toNat : Nat) : Int) = p := by omega
+      rw [this] at h; exact h
+    rw [e1, e2]
+    by_cases hpq' : p.toNat = q.toNat
+    · simp only [hpq']; exact hlt.irrefl _
+    · exact (List.pairwise_iff_getElem.mp hsr) p.toNat q.toNat hpn hqn (by omega)
+
+theorem toList_map_toNat_eq_natOffs (c : Ctx) (o : Array Int) (h : o.size = c.runs.size) :
+    o.toList.map Int.toNat = natOffs c o := by
+  apply List.ext_getElem?
+  intro i
+  by_cases hi : i < c.runs.size
+  · have hio : i < o.size := by omega
+    simp only [natOffs, List.getElem?_map, List.getElem?_range hi, Option.map_some, aget,
+      Array.getD_eq_getD_getElem?]
+    simp [hio]
+  · have h1 : (o.toList.map Int.toNat).length ≤ i := by simp; omega
+    have h2 : (natOffs c o).length ≤ i := by simp [natOffs]; omega
+    rw [List.getElem?_eq_none_iff.mpr h1, List.getElem?_eq_none_iff.mpr h2]
+
+/-- **multisequence_partition (model) is correct, list-level statement.** -/
+theorem msp_correct_lists {lt : Int → Int → Bool} (hlt : StrictWeak lt) {runs : List (List Int)}
+    (hne : ∀ r ∈ runs, r ≠ []) (hs : ∀ r ∈ runs, SortedRun lt r) {rank : Nat}
+    (hr : rank ≤ (runs.map List.length).sum) :
+    ∃ offs tr, runM (partitionM (ctxOf lt runs) rank) = .ok (offs, tr) ∧
+      offs.toList.all (fun x => decide (0 ≤ x)) = true ∧
+      IsPartition lt runs rank (offs.toList.map Int.toNat) := by
+  have hg := good_ctxOf hlt hne hs
+  have htl : totalLen (ctxOf lt runs) = (runs.map List.length).sum := by
+    rw [← totalLen_runsL, runsL_ctxOf]
+  obtain ⟨offs, tr, hrun, hsz, hnn, hp⟩ := msp_correct hg (rank := rank) (by rw [htl]; exact hr)
+  refine ⟨offs, tr, hrun, ?_, ?_⟩
+  · rw [List.all_eq_true]
+    intro x hx
+    obtain ⟨i, hi, rfl⟩ := List.getElem_of_mem hx
+    have hi' : i < (ctxOf lt runs).runs.size := by simpa [hsz] using hi
+    have := hnn i hi'
+    simp only [aget, Array.getD_eq_getD_getElem?] at this
+    simpa [Array.getElem?_eq_getElem (by simpa using hi : i < offs.size)] using this
+  · rw [toList_map_toNat_eq_natOffs _ _ hsz]
+    have := hp
+    rw [runsL_ctxOf] at this
+    exact this
+
 end TlxVerif.C08
